@@ -1830,6 +1830,11 @@ class Cluster(object):
                 session.user_type_registered(keyspace, udt_name, klass)
 
     def _cleanup_failed_on_up_handling(self, host):
+        if self.metadata.get_host(host.endpoint) is not host:
+            # removed meanwhile: policies and pools are looked up by endpoint and may
+            # by now belong to a new host object of the same address
+            return
+
         self.profile_manager.on_down(host)
         self.control_connection.on_down(host)
         for session in tuple(self.sessions):
@@ -1859,6 +1864,10 @@ class Cluster(object):
             if not all(results):
                 log.debug("Connection pool could not be created, not marking node %s up", host)
                 self._cleanup_failed_on_up_handling(host)
+                return
+
+            if self.metadata.get_host(host.endpoint) is not host:
+                log.debug("Node %s was removed while its connection pools were created", host)
                 return
 
             log.info("Connection pools established for node %s", host)
